@@ -419,10 +419,12 @@ def «matches» (sch : SchemaEval) (d q : Doc) : Res Bool :=
 /-! ### 8.2 core domain -/
 
 mutual
-/-- (1) arrays hold scalars or documents, not arrays -/
+/-- (1) arrays hold scalars or documents, not arrays (and `missing`, which only denotes absence,
+    is not a value: §8.1 "supported values") -/
 def noNestedArrays : V → Bool
   | .doc fs => nnaFields fs
   | .arr xs => nnaElems xs
+  | .missing => false
   | _ => true
 def nnaFields : List (String × V) → Bool
   | [] => true
